@@ -122,13 +122,13 @@ class Deadline:
 # ---------------------------------------------------------------- known findings
 def load_known(prop):
     known, fixed = [], []
-    p = os.path.join(VERIF, "known_findings.txt")
+    p = os.environ.get("VERIF_KNOWN") or os.path.join(VERIF, "known_findings.txt")  # override: validating fixes in a scratch tree
     if os.path.exists(p):
         for line in open(p):
             line = line.strip()
             if line.startswith("known: property=%s " % prop):
                 rest = line[len("known: property=%s " % prop):]
-                key, _, what = rest.partition(" :: ")
+                key, _, what = rest.rpartition(" :: ") if " :: " in rest else (rest, "", "")
                 known.append((key.strip(), what.strip()))
             elif line.startswith("fixed: property=%s " % prop):
                 fixed.append(line)
